@@ -74,10 +74,13 @@ func Mermaid(spec *Spec, w io.WriteCloser, opts *MermaidOpts, fromNode, toNode s
 		nid := fmt.Sprintf("n%d", num)
 		nids[name] = nid
 
+		// A double quote would end the node's text.
+		text := strings.Replace(name, `"`, "#quot;", -1)
+
 		if n != nil && n.Action == nil {
-			fmt.Fprintf(w, "  %s(\"%s\")\n", nid, name)
+			fmt.Fprintf(w, "  %s(\"%s\")\n", nid, text)
 		} else {
-			fmt.Fprintf(w, "  %s[\"%s\"]\n", nid, name)
+			fmt.Fprintf(w, "  %s[\"%s\"]\n", nid, text)
 			if opts.ActionClass == "" {
 				if opts.ActionFill == "" {
 				} else {
